@@ -4,6 +4,7 @@ import (
 	"context"
 	"encoding/json"
 	"fmt"
+	"google.golang.org/grpc"
 	"io"
 	"net"
 	"os"
@@ -35,6 +36,8 @@ type HostCfg struct {
 	SkipHostEnv    bool           `json:"skip_host_env"`
 	TempDir        string         `json:"temp_dir"`
 	Managed        bool           `json:"managed"`
+	// DialBlock: the host asks for a blocking dial of the main gRPC connection (GRPCDialOptions: grpc.WithBlock())
+	DialBlock bool `json:"dial_block"`
 }
 
 // WrapRunner wraps the stock command runner and counts what the client does with it.
@@ -192,6 +195,9 @@ func NewPair(bin string, hc *HostCfg, pc *PluginCfg, extraEnv []string, logger h
 		cfg.AutoMTLS = true
 	}
 	cfg.GRPCBrokerMultiplex = hc.Mux
+	if hc.DialBlock {
+		cfg.GRPCDialOptions = []grpc.DialOption{grpc.WithBlock()}
+	}
 	if hc.StartTimeoutMs > 0 {
 		cfg.StartTimeout = time.Duration(hc.StartTimeoutMs) * time.Millisecond
 	} else {
